@@ -1,5 +1,5 @@
 /-
-  C24 — Line-to-address debug mapping is one-to-one.   (line → address proved for whole programs; inverse given distinctness)
+  C24 — Line-to-address debug mapping is one-to-one.   (proved for whole programs: line → address, injectivity, address → line)
   Proved for every line map whose blocks are disjoint and non-empty (what `from_blocks` accepts): the line of the i-th
   entry of a block maps to that entry's address (`get` inverts the enumeration `iter`), lines outside every block map
   to nothing; when all recorded addresses are distinct, the address maps back to the line (`find_of_mem`: `find` inverts `get`).
@@ -10,11 +10,15 @@
   when the statement is inside a block and not `.orig`/`.end`/`.external`, and nothing otherwise; lines on which no statement
   starts map to nothing.  This goes through the run-length condensation (`LineSymbolMap::new` answers exactly the per-line
   vector) and an invariant of the vector over the pass-1 fold (runs ascend, nothing recorded beyond the current line).
-  Not proved: that the addresses recorded for a whole program are pairwise distinct (needed for `rev_lookup_line` = inverse:
-  `find_of_mem` proves the inverse *given* distinctness); checked by the oracle (injectivity of the dumped map).
+  `rev_lookup_inverts` (Lemmas/LineInj.lean): for an assembled structured program whose recorded statements are at least one
+  word long (parser: `.blkw 0` rejected) and whose blocks do not overlap (pass 2's check, C02.second_pass_iff), the recorded
+  addresses are pairwise different — strictly increasing inside a block, in disjoint ranges across blocks — so `lookup_line`
+  is injective (no address maps to two lines) and `rev_lookup_line` is its inverse.
 -/
 import Lc3V.Model.Asm
 import Lc3V.Lemmas.LineRec
+import Lc3V.Lemmas.CursorAt
+import Lc3V.Lemmas.LineInj
 set_option linter.unusedSimpArgs false
 namespace Lc3V.C24
 open Lc3V
@@ -207,6 +211,109 @@ theorem line_maps_to_statement_address (pre post : List Stmt) (s : Stmt) (src : 
   | none => rfl
   | some cur => cases noLine s.nucleus <;> rfl
 
+/-- **line → address, explicitly**: in a program made of `.orig … .end` blocks, the line of the statement at position
+    `pre ++ s :: post` of the body of the block `.orig a` maps to `a + size(pre)`: the block's origin plus the sizes of the
+    statements before it, i.e. the address of the statement's first word -/
+theorem line_maps_to_origin_plus_sizes (before : List Blk) (b : Blk) (more : List Stmt) (pre post : List Stmt) (s : Stmt)
+    (src : List Char) (t : SymTab) (hwf : ∀ x ∈ before, x.WF) (hb : b.WF) (hbody : b.body = pre ++ s :: post)
+    (hrec : noLine s.nucleus = false)
+    (h : pass1 (before.flatMap Blk.stmts ++ (b.stmts ++ more)) (some src) = .ok t)
+    (hl : LinesFrom (SourceInfo.ofText src) (SourceInfo.ofText src).countLines 0 (before.flatMap Blk.stmts ++ (b.stmts ++ more))) :
+    t.lookupLine ((SourceInfo.ofText src).getLine s.span.1) = some (b.a + sizeOf' pre) :=
+  lookup_line_explicit before b more pre post s src t hwf hb hbody hrec h hl
+
+/-- `find` returns a line whose entry is the address, whenever the address occurs in the map -/
+theorem find_some_of_mem (a : W) : ∀ (m : LineMap), (∃ b ∈ m, a ∈ b.2) →
+    ∃ b' ∈ m, ∃ i, ∃ hi : i < b'.2.length, b'.2[i] = a ∧ m.find a = some (b'.1 + i) := by
+  intro m
+  induction m with
+  | nil => rintro ⟨b, hb, _⟩; cases hb
+  | cons x xs ih =>
+    intro hex
+    obtain ⟨s0, w0⟩ := x
+    unfold LineMap.find
+    simp only [List.findSome?_cons]
+    by_cases hmem : a ∈ w0
+    · -- the first occurrence
+      have hfirst : ∃ j, ∃ hj : j < w0.length, w0[j] = a ∧ ∀ k (hk : k < j), w0[k]'(by omega) ≠ a := by
+        clear hex
+        induction w0 with
+        | nil => cases hmem
+        | cons y ys ihy =>
+          by_cases hy : y = a
+          · exact ⟨0, by simp, by simpa using hy, fun k hk => by omega⟩
+          · have hmem' : a ∈ ys := by
+              rcases List.mem_cons.mp hmem with h | h
+              · exact absurd h.symm hy
+              · exact h
+            obtain ⟨j, hj, h1, h2⟩ := ihy hmem'
+            refine ⟨j + 1, by simp; omega, by simpa using h1, fun k hk => ?_⟩
+            cases k with
+            | zero => simpa using hy
+            | succ k' => simpa using h2 k' (by omega)
+      obtain ⟨j, hj, h1, h2⟩ := hfirst
+      have hidx := idxOf_spec a w0 0 j hj h1 h2
+      refine ⟨(s0, w0), by simp, j, hj, h1, ?_⟩
+      simp [hidx]
+    · have hnone := idxOf_none a w0 0 hmem
+      obtain ⟨b, hb, hab⟩ := hex
+      have hb' : b ∈ xs := by
+        rcases List.mem_cons.mp hb with rfl | hb
+        · exact absurd hab hmem
+        · exact hb
+      obtain ⟨b', hb'm, i, hi, h1, h2⟩ := ih ⟨b, hb', hab⟩
+      refine ⟨b', by simp [hb'm], i, hi, h1, ?_⟩
+      simp only [hnone, Option.map_none]
+      exact h2
+
+theorem nonEmpty_of_chained : ∀ (m : LineMap) (lo : Nat), Chained m lo → NonEmptyBlocks m := by
+  intro m
+  induction m with
+  | nil => intro _ _ b hb; cases hb
+  | cons x xs ih =>
+    obtain ⟨s0, w0⟩ := x
+    intro lo h b hb
+    rcases List.mem_cons.mp hb with rfl | hb
+    · exact h.2.1
+    · exact ih _ h.2.2 b hb
+
+/-- on a valid map whose `get` is injective, `find` inverts `get` -/
+theorem find_inverts_get (m : LineMap) (lo : Nat) (hch : Chained m lo)
+    (hinj : ∀ l1 l2 x, m.get l1 = some x → m.get l2 = some x → l1 = l2) (l : Nat) (a : W) (h : m.get l = some a) :
+    m.find a = some l := by
+  have hlk : lk m l = some a := by rw [← get_eq_lk m lo hch l]; exact h
+  unfold lk at hlk
+  obtain ⟨b, hb, hbe⟩ := List.exists_of_findSome?_eq_some hlk
+  have hab : a ∈ b.2 := by
+    split at hbe
+    · exact List.mem_of_getElem? hbe
+    · cases hbe
+  obtain ⟨b', hb'm, i, hi, h1, h2⟩ := find_some_of_mem a m ⟨b, hb, hab⟩
+  have hg := get_of_mem m (chained_notOverlapping m lo hch) (nonEmpty_of_chained m lo hch) b'.1 b'.2 hb'm i hi
+  rw [h1] at hg
+  rw [h2, hinj _ _ _ hg h]
+
+/-- **the address maps back to the line** (and no address maps to two lines): in an assembled, structured program — statements on
+    increasing lines, every recorded statement at least one word long (as the parser guarantees: `.blkw 0` is rejected), string
+    literals below 64 K, non-overlapping blocks (what pass 2 checks) — `lookup_line` is injective and `rev_lookup_line` is its
+    inverse -/
+theorem rev_lookup_inverts (blks : List Blk) (tail : List Stmt) (src : List Char) (t : SymTab)
+    (hwf : ∀ b ∈ blks, b.WF) (ht : ∀ s ∈ tail, isOrigEnd s.nucleus = false)
+    (h : pass1 (blks.flatMap Blk.stmts ++ tail) (some src) = .ok t)
+    (hl : LinesFrom (SourceInfo.ofText src) (SourceInfo.ofText src).countLines 0 (blks.flatMap Blk.stmts ++ tail))
+    (hws : ∀ b ∈ blks, ∃ ws, bodyWords t b.a b.body = .ok ws) (hclear : blks.Pairwise (BlkClear t))
+    (hsz : ∀ b ∈ blks, Sized b.body) (hstr : ∀ b ∈ blks, ShortStrings b.body) :
+    (∀ l1 l2 a, t.lookupLine l1 = some a → t.lookupLine l2 = some a → l1 = l2) ∧
+    (∀ l a, t.lookupLine l = some a → t.revLookupLine a = some l) := by
+  have hinj := lookup_line_injective blks tail src t hwf ht h hl hws hclear hsz hstr
+  refine ⟨hinj, fun l a hla => ?_⟩
+  obtain ⟨_, _, _, _, _, _, m, hm, hch⟩ := final_vector _ src t h hl
+  have hget : ∀ k, t.lookupLine k = m.get k := by intro k; simp [SymTab.lookupLine, hm]
+  unfold SymTab.revLookupLine
+  rw [hm]
+  simp only [Option.bind_some]
+  exact find_inverts_get m 0 hch (fun l1 l2 x h1 h2 => hinj l1 l2 x (by rw [hget]; exact h1) (by rw [hget]; exact h2)) l a (by rw [← hget]; exact hla)
+
 /-- lines holding `.orig`, `.end` or `.external` map to nothing -/
 theorem marker_lines_map_to_nothing (pre post : List Stmt) (s : Stmt) (src : List Char) (t : SymTab) (st_pre : P1)
     (h : pass1 (pre ++ s :: post) (some src) = .ok t)
@@ -225,6 +332,6 @@ theorem new_answers_the_vector (ls : List (Option W)) (he : EndsNone ls) (hasc :
   exact ⟨m, h1, h2⟩
 
 def obligations : List Lean.Name :=
-  [``line_maps_to_statement_address, ``marker_lines_map_to_nothing, ``new_answers_the_vector, ``keys_ge, ``lastLE_of_mem, ``get_of_mem, ``get_of_iter, ``find_of_mem, ``no_line_for_markers, ``line_recorded, ``no_line_outside_block]
+  [``rev_lookup_inverts, ``find_inverts_get, ``Lc3V.lookup_line_injective, ``Lc3V.recsAll_distinct, ``line_maps_to_origin_plus_sizes, ``line_maps_to_statement_address, ``marker_lines_map_to_nothing, ``new_answers_the_vector, ``keys_ge, ``lastLE_of_mem, ``get_of_mem, ``get_of_iter, ``find_of_mem, ``no_line_for_markers, ``line_recorded, ``no_line_outside_block]
 
 end Lc3V.C24
